@@ -11,9 +11,8 @@
    [dflt e].  [s] = quad set + known graph names; [a] is any list that is the
    same *set* of quads as the store content.  [scope e o] says that the front
    end has named graphs or the operation needs none (a plain Graph is a store
-   with one graph).  [op_kf] is the known-finding trigger: only F10l is left (a given solution
-   list with a repeated solution: the hash join at the top of every update WHERE
-   clause de-duplicates it), [kinv] the store invariant "every graph
+   with one graph).  [op_kf] is the known-finding trigger - constantly 0: every finding of this
+   property is repaired in /repo (C10_no_trigger_left) -, [kinv] the store invariant "every graph
    holding a quad is known". *)
 From Coq Require Import Permutation.
 From RV Require Import Update.Model Update.Proofs Update.Ops Update.Where Update.Seq.
@@ -36,9 +35,13 @@ Print Assumptions C10_spec_ok_model_partial.
 (* full strength for requests all of whose solution lists are given (no ModifyW,
    DeleteWhereW, non-silent CREATE): only genuine well-formedness is assumed *)
 Theorem C10_spec_ok_model : forall c,
-  wf c -> forallb no_where (c_ops c) = true -> kf c = 0 -> spec_ok c (model_obs c) = true.
+  wf c -> forallb no_where (c_ops c) = true -> spec_ok c (model_obs c) = true.
 Proof. exact spec_ok_model_given. Qed.
 Print Assumptions C10_spec_ok_model.
+
+Theorem C10_no_trigger_left : forall e k o, op_kf e k o = 0.
+Proof. exact no_trigger. Qed.
+Print Assumptions C10_no_trigger_left.
 
 
 
@@ -242,7 +245,7 @@ Print Assumptions C10_move.
 (* Graphs the operation does not name stay equal (data and management
    operations: [op_graphs] lists the graphs named). *)
 Theorem C10_untouched : forall e k o a c,
-  match o with Modify _ _ _ _ _ _ | ModifyS _ _ _ _ _ _ | ModifyW _ _ _ _ _ _ | DeleteWhere _ _ | DeleteWhereW _ => False | _ => True end ->
+  match o with Modify _ _ _ _ _ _ | ModifyW _ _ _ _ _ _ | DeleteWhere _ _ | DeleteWhereW _ => False | _ => True end ->
   ~ op_graphs e o c -> forall t, In (t, c) (spec_op e k o a) <-> In (t, c) a.
 Proof. exact spec_untouched_data. Qed.
 Print Assumptions C10_untouched.
